@@ -564,20 +564,20 @@ def i_JPcc(i_, fmap):
 def i_JR(i_, fmap):
     src = i_.operands[0]
     fmap[pc] = fmap[pc] + i_.length
-    fmap[pc] = fmap[pc] + fmap(src)
+    fmap[pc] = fmap[pc] + fmap(src).signextend(16)
 
 
 def i_JRcc(i_, fmap):
     src = i_.operands[1]
     fmap[pc] = fmap[pc] + i_.length
-    fmap[pc] = tst(i_.cond[1], fmap[pc] + fmap(src), fmap[pc])
+    fmap[pc] = tst(i_.cond[1], fmap[pc] + fmap(src).signextend(16), fmap[pc])
 
 
 def i_DJNZ(i_, fmap):
     src = i_.operands[0]
     _b = fmap[b]
     fmap[pc] = fmap[pc] + i_.length
-    fmap[pc] = tst(_b != 0, fmap[pc] + fmap(src), fmap[pc])
+    fmap[pc] = tst(_b != 0, fmap[pc] + fmap(src).signextend(16), fmap[pc])
 
 
 # call and rets :
